@@ -166,6 +166,21 @@ def one_model(ctx, script, spec, rng, solved):
             return
     if list(m2.status) != ['-'] * n:
         ctx.count('import_status_not_default')
+    # a variable that is missing (NaN) in every period, and one missing in some: "every value" includes them
+    if data_cols and n:
+        m.__dict__['_' + data_cols[-1]][:] = np.nan
+        m.__dict__['_' + data_cols[0]][::2] = np.nan
+        df = m.to_dataframe(status=False, iterations=False)
+        try:
+            m3 = Model.from_dataframe(df[data_cols])
+        except Exception as e:
+            ctx.violation('import-raises', f'from_dataframe with NaN columns on {spec.kind} raised {type(e).__name__}: {e}', case)
+            return
+        ctx.count('imports_compared')
+        for nm in data_cols:
+            if not np.array_equal(np.asarray(m3[nm]), np.asarray(m[nm]), equal_nan=True):
+                ctx.violation('import-values', f'from_dataframe: {nm} exported as {m[nm].tolist()} but re-imported as {m3[nm].tolist()}', case)
+                return
 
 
 def containers_and_linkers(ctx, spec, rng):
